@@ -760,6 +760,74 @@ func (p *pwPath) constOfD(v ssa.Value, d int) (constant.Value, bool) {
 		if c, ok := p.tableSearch(x, d); ok {
 			return c, true
 		}
+		if c, ok := p.stringsFold(x, d); ok {
+			return c, true
+		}
+	}
+	return nil, false
+}
+
+// stringsFold: the pure searches of package strings (and bytes.IndexByte on a converted text) on arguments that
+// are known on this path: strings.IndexByte(" \t\n\r", ch) >= 0 is a set of bytes written as a text.
+func (p *pwPath) stringsFold(c *ssa.Call, d int) (constant.Value, bool) {
+	pkg, name := staticCalleeName(c)
+	if pkg != "strings" || len(c.Call.Args) != 2 {
+		return nil, false
+	}
+	switch name {
+	case "IndexByte", "IndexRune", "ContainsRune", "Contains", "ContainsAny", "Index", "HasPrefix", "HasSuffix", "IndexAny", "Count":
+	default:
+		return nil, false
+	}
+	a, ok := p.constOfD(c.Call.Args[0], d+1)
+	if !ok || a.Kind() != constant.String {
+		return nil, false
+	}
+	b, ok := p.constOfD(c.Call.Args[1], d+1)
+	if !ok {
+		return nil, false
+	}
+	s := constant.StringVal(a)
+	switch name {
+	case "IndexByte", "IndexRune", "ContainsRune":
+		if b.Kind() != constant.Int {
+			return nil, false
+		}
+		n, exact := constant.Int64Val(b)
+		if !exact {
+			return nil, false
+		}
+		switch name {
+		case "IndexByte":
+			if n < 0 || n > 255 {
+				return nil, false
+			}
+			return constant.MakeInt64(int64(strings.IndexByte(s, byte(n)))), true
+		case "IndexRune":
+			return constant.MakeInt64(int64(strings.IndexRune(s, rune(n)))), true
+		default:
+			return constant.MakeBool(strings.ContainsRune(s, rune(n))), true
+		}
+	}
+	if b.Kind() != constant.String {
+		return nil, false
+	}
+	t := constant.StringVal(b)
+	switch name {
+	case "Contains":
+		return constant.MakeBool(strings.Contains(s, t)), true
+	case "ContainsAny":
+		return constant.MakeBool(strings.ContainsAny(s, t)), true
+	case "Index":
+		return constant.MakeInt64(int64(strings.Index(s, t))), true
+	case "IndexAny":
+		return constant.MakeInt64(int64(strings.IndexAny(s, t))), true
+	case "HasPrefix":
+		return constant.MakeBool(strings.HasPrefix(s, t)), true
+	case "HasSuffix":
+		return constant.MakeBool(strings.HasSuffix(s, t)), true
+	case "Count":
+		return constant.MakeInt64(int64(strings.Count(s, t))), true
 	}
 	return nil, false
 }
